@@ -1,4 +1,5 @@
 import Cell2v.Lemmas.ApiMap
+import Cell2v.Gen.C13Registry
 /-!
 C13 — property theorems (API mapping: routes hit exactly handler-shaped
 methods; calls always complete).  Only property statements, non-vacuity
@@ -469,5 +470,69 @@ theorem dispatch_request_answered_once_full_fails : ¬ DispatchRequestAnsweredOn
 /-- non-vacuity: a request to `E.Join` through the dispatcher is answered once, by the handler -/
 example : responses (dispatch ([[eDemo]].map (build true)) decId [1] [69, 46, 74] [] false) false bOk = [.h true] := by
   decide
+
+/-! ## registry under concurrency -/
+
+/-- **structural fact, re-checked against the source on every run**: on every
+execution path of `(*APIRegistry).AddCollection` the insert into the
+name→collection map happens under the write lock and after a lookup made since
+that lock was taken (one critical section, or a re-check after upgrading) -/
+theorem registry_add_collection_atomic :
+    Cell2v.Gen.C13.parsed = true ∧ addCollectionAtomic Cell2v.Gen.C13.addCollectionPaths = true := by
+  decide
+
+/-- a bound name is returned as it is and the registry is unchanged -/
+theorem registry_add_bound (r : Registry) (name : Bytes) (c : Nat) (h : lookup r name = some c) :
+    r.add name = (r, c) := by
+  simp [Registry.add, h]
+
+/-- `add` binds the name to what it returns and keeps every existing binding -/
+theorem registry_add_keeps (r : Registry) (name n : Bytes) (c : Nat) (h : lookup r n = some c) :
+    lookup (r.add name).1 n = some c := by
+  unfold Registry.add
+  cases hl : lookup r name with
+  | some c' => simpa using h
+  | none =>
+    simp only [lookup]
+    by_cases hn : name = n
+    · subst hn; rw [hl] at h; cases h
+    · simp [hn, h]
+
+theorem registry_add_binds (r : Registry) (name : Bytes) : lookup (r.add name).1 name = some (r.add name).2 := by
+  unfold Registry.add
+  cases hl : lookup r name with
+  | some c => simpa using hl
+  | none => simp [lookup]
+
+/-- **all callers of one name get the same collection, nothing is lost**: for any
+number of `AddCollection` calls in any order (each an atomic step), once a name
+has been added every later call with that name — whatever happened in between
+— returns the very same collection, and it is the one the registry holds -/
+theorem registry_same_name_same_collection (r : Registry) (name : Bytes) (between : List Bytes) :
+    (((r.add name).1.addMany between).add name).2 = (r.add name).2 ∧
+    lookup ((r.add name).1.addMany between) name = some (r.add name).2 := by
+  have key : ∀ (ms : List Bytes) (r' : Registry) (c : Nat), lookup r' name = some c →
+      lookup (r'.addMany ms) name = some c := by
+    intro ms
+    induction ms with
+    | nil => intro r' c h; simpa [Registry.addMany] using h
+    | cons m ms ih =>
+      intro r' c h
+      simp only [Registry.addMany, List.foldl_cons]
+      exact ih _ c (registry_add_keeps r' m name c h)
+  have h := key between _ _ (registry_add_binds r name)
+  exact ⟨by rw [registry_add_bound _ _ _ h], h⟩
+
+/-- the non-atomic variant (read-locked lookup, write-locked insert without a
+second lookup) LOSES a collection: two threads that both miss get different
+objects and the registry keeps only the second — why the structural fact matters -/
+theorem registry_split_lookup_insert_loses :
+    let s := [RStep.look 0, RStep.look 1, RStep.ins 0, RStep.ins 1].foldl (splitStep [110]) {}
+    s.got = [(1, 1), (0, 0)] ∧ lookup s.reg [110] = some 1 := by
+  decide
+
+/-- non-vacuity: three callers of "n" with another name in between all get collection 0 -/
+example : (Registry.add [] [110]).2 = 0 ∧
+    ((((Registry.add [] [110]).1.addMany [[120], [110]]).add [110]).2 = 0) := by decide
 
 end Cell2v.Props.C13
